@@ -31,7 +31,7 @@ ASSUMPTIONS = [
 FLOORS = {
     'quick': {'cut_committed': 4000, 'scope:option': 500, 'scope:optional': 200, 'scope:closure-iteration-1': 100,
               'scope:closure-iteration-n': 200, 'scope:join-after-separator': 200, 'gen_compared': 15000,
-              'metamorphic_checked': 15000, 'variants': 900, 'config:memoization': 100, 'config:prune_memos_on_cut': 100},
+              'metamorphic_checked': 15000, 'variants': 900, 'variants_with_cut_reached_through_include': 25, 'nested_choice_family': 100, 'nested_choice_family:include': 20, 'nested_choice_family:optwrap-include': 10, 'config:memoization': 100, 'config:prune_memos_on_cut': 100},
     'thorough': {'cut_committed': 150000, 'scope:closure-iteration-n': 5000, 'scope:join-after-separator': 5000,
                  'gen_compared': 400000, 'variants': 30000},
 }
@@ -56,7 +56,8 @@ def base_grammar(rng):
             if k < 0.6:
                 return L.Tok(rng.choice('abc'))
             if k < 0.8 and calls:
-                return L.Call(rng.choice(calls))
+                # a rule include is its right hand side in place: a cut in there commits the INCLUDING option
+                return (L.Include if rng.random() < 0.3 else L.Call)(rng.choice(calls))
             return L.Pat(rng.choice(['a', 'b+', '[ab]']))
         sub = lambda: body(depth - 1, calls)  # noqa: E731
         if r < 0.40:
@@ -175,6 +176,9 @@ def check_variant(acc, g0, gv, texts, base_case, origin):
     acc.count('config:' + ('+'.join(sorted(cfg)) or 'defaults'))
     case = D.Case(gv, 'start', parse_settings=cfg)
     acc.count('variants')
+    if any(isinstance(x, L.Include) and any(isinstance(y, L.Cut) for y in L.walk(gv.rule(x.name).body))
+           for r in gv.rules for x in L.walk(r.body)):
+        acc.count('variants_with_cut_reached_through_include')
     if case.model is None:
         acc.evaluations += 1
         acc.violation('exc:build:' + case.build_error[0], f'model construction failed: {case.build_error}',
@@ -248,8 +252,90 @@ def check_variant(acc, g0, gv, texts, base_case, origin):
                     acc.count('gen_ast_differs_same_accept')
 
 
+def strip_cuts(g):
+    def rw(e):
+        kids = [rw(k) for k in L.children(e) if not isinstance(k, L.Cut)]
+        if isinstance(e, L.Seq):
+            return kids[0] if len(kids) == 1 else L.Seq(tuple(kids)) if kids else L.Void()
+        return L.rebuild(e, kids) if L.children(e) else e
+    return L.Grammar([L.Rule(r.name, G.normalise(rw(r.body)), r.decorators, r.params, r.kwparams, r.base) for r in g.rules],
+                     dict(g.directives), tuple(g.keywords))
+
+
+def nested_choice_grammar(rng):
+    """a choice nested in a group as ONE option of an outer choice; the inner option reaches a cut directly, through a
+    rule include (the cut is then in place: it commits the INNER choice) or through a rule call (the cut stays in the
+    rule); the outer options share the prefix so that the outer choice must (or must not) try them after the cut"""
+    T = L.Tok
+    t1, t2, t3, t4 = rng.sample('abcd', 4)
+    how = rng.choice(['include', 'include', 'call', 'inline'])
+    cutseq = L.Seq((T(t1), L.Cut(), T(t2)))
+    a1 = {'include': L.Include('inc'), 'call': L.Call('inc'), 'inline': cutseq}[how]
+    if rng.random() < 0.3:
+        a1 = L.Seq((a1, L.Opt(T(t3))))
+    if rng.random() < 0.35:
+        # an optional directly around another scope ([ {x} ], [ [x] ], [ s.{x} ]): the inner scope fails after the cut, the
+        # outer optional has seen no cut and matches nothing
+        inner_scope = rng.choice([L.Clo(a1), L.Opt(a1), L.Join(T(','), a1, False, rng.random() < 0.5), L.Group(L.Clo(a1))])
+        body = L.Seq((L.Opt(inner_scope), rng.choice([L.Clo(L.Dot()), L.Pat('.*'), L.Seq((T(t1), T(t4)))])))
+        rules = [L.Rule('start', L.Call('body') if rng.random() < 0.5 else L.Seq((L.Call('body'), L.EOF()))), L.Rule('body', body)]
+        if how != 'inline':
+            rules.append(L.Rule('inc', cutseq))
+        return L.Grammar(rules), 'optwrap-' + how
+    a2 = rng.choice([T(t3), L.Seq((T(t1), T(t4))), L.Seq((T(t3), T(t1)))])
+    inner = L.Group(L.Choice((a1, a2) if rng.random() < 0.7 else (a2, a1)))
+    if rng.random() < 0.25:
+        inner = L.Group(L.Choice((inner, T(t4))))      # one more level of nesting
+    outs = [inner, L.Seq((T(t1), T(t4))), rng.choice([T(t3), L.Seq((T(t1), T(t3))), L.Seq((T(t4), T(t2)))])]
+    if rng.random() < 0.5:
+        outs = [outs[1], outs[0], outs[2]] if rng.random() < 0.5 else [outs[2], outs[0], outs[1]]
+    body = L.Choice(tuple(outs[:rng.choice([2, 3])] if outs[0] is inner or rng.random() < 0.5 else outs))
+    if not any(o is inner for o in body.opts):
+        body = L.Choice((inner, *body.opts))
+    shape = rng.choice(['plain', 'eof', 'closure', 'optional'])
+    if shape == 'plain':
+        start = L.Call('body')
+    elif shape == 'eof':
+        start = L.Seq((L.Call('body'), L.EOF()))
+    elif shape == 'closure':
+        start = L.Seq((L.PClo(L.Call('body')), L.EOF()))
+    else:
+        start = L.Seq((L.Opt(L.Call('body')), L.Clo(L.Dot())))
+    rules = [L.Rule('start', start), L.Rule('body', body)]
+    if how != 'inline':
+        rules.append(L.Rule('inc', cutseq))
+    return L.Grammar(rules), how
+
+
+def nested_choice_inputs(rng):
+    import itertools
+    out = []
+    for n in range(0, 4):
+        for t in itertools.product('abcd', repeat=n):
+            out.append(' '.join(t))
+    extra = [' '.join(rng.choice('abcd') for _ in range(rng.choice([4, 5]))) for _k in range(40)]
+    rng.shuffle(out)
+    return out[:70] + extra
+
+
+def run_nested(desc, acc):
+    for i in range(desc['n'] // 2 + 1):
+        rng = random.Random(h64('C05', 'nested', desc['seed'], desc['shard'], i))
+        gv, how = nested_choice_grammar(rng)
+        gv = L.Grammar([L.Rule(r.name, G.normalise(r.body)) for r in gv.rules])
+        g0 = strip_cuts(gv)
+        base_case = D.Case(g0, 'start')
+        if base_case.model is None:
+            acc.count('base_build_failed')
+            continue
+        acc.count('nested_choice_family')
+        acc.count('nested_choice_family:' + how)
+        check_variant(acc, g0, gv, nested_choice_inputs(rng), base_case, {'shard': desc['shard'], 'i': i, 'family': 'nested-choice'})
+
+
 def run_shard(desc, acc):
     tier = desc['tier']
+    run_nested(desc, acc)
     for i in range(desc['n']):
         rng = random.Random(h64('C05', desc['seed'], desc['shard'], i))
         g0 = base_grammar(rng)
